@@ -55,6 +55,10 @@ type LVal struct {
 	S string
 }
 
+// NInt is a named integer key type that does not implement mast.Key: the library orders such
+// keys by their marshaled form and derives their layer from it (not from the number).
+type NInt int64
+
 // NVal holds a number in an interface field: it survives a JSON round trip only through a
 // decoder that keeps numbers exact (UseNumber), i.e. only if the configured Unmarshal is used.
 type NVal struct {
@@ -121,6 +125,17 @@ func (d *KeyDialect) Reverse() {
 var extremeInts = []int64{math.MinInt64, math.MaxInt64, -6000000000000000000, 6000000000000000000, math.MinInt64 + 1, math.MaxInt64 - 1}
 var extremeUints = []uint64{math.MaxUint64, 1 << 63, 1<<63 - 1, math.MaxUint64 - 1, 1 << 62, 12000000000000000000}
 
+func init() {
+	if strconv.IntSize == 32 {
+		// a 32-bit host: int and uint keys cannot be wider (the int64 / uint64 dialects keep the full range)
+		extremeIntsNative = []int64{math.MinInt32, math.MaxInt32, -1500000000, 1500000000, math.MinInt32 + 1, math.MaxInt32 - 1}
+		extremeUintsNative = []uint64{math.MaxUint32, 1 << 31, 1<<31 - 1, math.MaxUint32 - 1, 1 << 30, 3000000000}
+	}
+}
+
+var extremeIntsNative = extremeInts
+var extremeUintsNative = extremeUints
+
 func (d *KeyDialect) extreme(i int) (int, bool) {
 	if d.U < 12 {
 		return 0, false
@@ -135,9 +150,11 @@ func (d *KeyDialect) mk(i int) interface{} {
 	switch d.Name {
 	case "int":
 		if j, ok := d.extreme(i); ok {
-			return int(extremeInts[j])
+			return int(extremeIntsNative[j])
 		}
 		return i - d.U/3
+	case "namedint":
+		return NInt(int64(i-d.U/3) * 16)
 	case "int64":
 		if j, ok := d.extreme(i); ok {
 			return extremeInts[j]
@@ -145,7 +162,7 @@ func (d *KeyDialect) mk(i int) interface{} {
 		return int64(i-d.U/3) * 3
 	case "uint":
 		if j, ok := d.extreme(i); ok {
-			return uint(extremeUints[j])
+			return uint(extremeUintsNative[j])
 		}
 		return uint(i)
 	case "uint64":
@@ -209,7 +226,7 @@ func (d *KeyDialect) lessConcrete(i, j int) bool {
 		return bytes.Compare(a.([]byte), b.([]byte)) < 0
 	case "userkey":
 		return a.(UKey).N < b.(UKey).N
-	case "struct", "lstruct":
+	case "struct", "lstruct", "namedint":
 		ja, _ := json.Marshal(a)
 		jb, _ := json.Marshal(b)
 		return bytes.Compare(ja, jb) < 0
@@ -261,6 +278,8 @@ func (d *KeyDialect) Like() interface{} {
 		return SKey{}
 	case "lstruct":
 		return LKey{}
+	case "namedint":
+		return NInt(0)
 	}
 	panic("unknown key dialect")
 }
@@ -288,6 +307,12 @@ func (v *ValDialect) Val(i int) interface{} {
 	case "struct":
 		return SVal{X: i, Y: "y" + strconv.Itoa(i%5)}
 	case "bytes":
+		switch i % 10 {
+		case 3:
+			return []byte(nil) // a nil blob and
+		case 7:
+			return []byte{} // an empty one are different values ("null" and "" when marshaled)
+		}
 		return []byte{byte(i), 0, byte(i >> 8), 0xfe}
 	case "lval":
 		return LVal{L: []int{i, i + 1}, S: strconv.Itoa(i)}
@@ -331,11 +356,11 @@ func (v *ValDialect) Like() interface{} {
 	case "string":
 		return ""
 	case "struct":
-		return SVal{}
+		return SVal{X: 7, Y: "example"} // an example instance need not be the zero value
 	case "bytes":
 		return []byte{}
 	case "lval":
-		return LVal{}
+		return LVal{L: []int{41, 42, 43}, S: "example"}
 	case "numiface":
 		return NVal{}
 	case "ptr":
@@ -372,8 +397,11 @@ func (v *ValDialect) Distinct(i, j int) bool {
 	if v.Name == "ptr" && i%10 == 4 && j%10 == 4 {
 		return false // a nil pointer is a nil pointer
 	}
+	if v.Name == "bytes" && i%10 == j%10 && (i%10 == 3 || i%10 == 7) {
+		return false // nil is nil, empty is empty
+	}
 	return i != j
 }
 
-var allKeyDialects = []string{"int", "int64", "uint", "uint64", "string", "bytes", "userkey", "struct", "lstruct"}
+var allKeyDialects = []string{"int", "int64", "uint", "uint64", "string", "bytes", "userkey", "struct", "lstruct", "namedint"}
 var allValDialects = []string{"int", "string", "struct", "bytes", "lval", "ptr", "bigstr", "inf", "nil", "hugestr", "numiface"}
